@@ -20,8 +20,17 @@ def plan(tier):
     return [{"kind": "hypothesis", "examples": 2000 if tier == "quick" else 60000}]
 
 
+@st.composite
+def case(draw, tier):
+    c = draw(sim_case(["naive"], tier))
+    if draw(st.integers(0, 7)) == 0:
+        # "pools of any size": a fractional number of (v)CPUs is a size too; the whole of it must be handed out
+        c["params"]["cpus_per_pool"] = draw(st.sampled_from([2.5, 1.5, 0.5, 7.25]))
+    return c
+
+
 def strategy(tier):
-    return sim_case(["naive"], tier)
+    return case(tier)
 
 
 def run_case(spec):
@@ -35,6 +44,8 @@ def run_case(spec):
     M.mon_naive(rec, P, info, params["multi_operator_containers"])
     if params["num_pools"] >= 2:
         out.label("multi_pool")
+    if params["cpus_per_pool"] != int(params["cpus_per_pool"]):
+        out.label("fractional_cpus")
     branching = any(l in out.labels for l in ("dag_fan_out", "dag_multi_parent", "dag_multi_root"))
     out.nontrivial = params["num_pools"] >= 2 and branching and c["nfail"] > 0
     return out
